@@ -50,6 +50,8 @@ func verifyFunction(ld *Loaded, sp *Specs, key string) (out *FuncVC) {
 	recOf = map[*Sym]*RecType{}
 	x := &Exec{ld: ld, sp: sp, vc: vc, usedFns: map[string]bool{}, tids: map[string]int{}, contract: ct, callOrd: map[string]int{}, report: rep, topFn: fn, closures: map[string]*closureInfo{}, globals: map[*ssa.Global]*Term{}}
 	x.hp = &Heaper{vc: vc, sp: sp}
+	x.hp.reify = x.reify
+	dualTypes = ld.dualStructTypes()
 	rep.Pos = x.pos(fn.Pos())
 	vc.theories["base"] = true
 	for _, u := range ct.Uses {
@@ -220,6 +222,12 @@ func (x *Exec) frameObligations(fr *Frame, ct *Contract, fin *State, reach *Term
 			excluded[bigFamily.Name] = append(excluded[bigFamily.Name], ref)
 		}
 		for _, f := range fams {
+			if f.Root == RElem && !strings.HasPrefix(d, "elems(") {
+				// the designated struct may be a slice element: its backing array is excluded
+				x.vc.theories["eref"] = true
+				excluded[f.Name] = append(excluded[f.Name], app(SInt, "eArr", ref))
+				continue
+			}
 			excluded[f.Name] = append(excluded[f.Name], ref)
 		}
 	}
